@@ -362,7 +362,8 @@ pub fn plan_packet(s: &Spec, t: &mut Tape) -> Option<PacketPlan> {
             let mut dq = Vec::new();
             let n = stale_count(t);
             for _ in 0..n {
-                let len = 4 * t.choose(4);
+                // stale payloads include invalid (unaligned) ones: a later valid call must win
+                let len = [0usize, 4, 8, 12, 1, 2, 3, 5, 7][t.choose(9)];
                 let v = t.value().to_le_bytes();
                 dq.push(Op::AppData(v.iter().cycle().take(len).copied().collect()));
             }
